@@ -323,7 +323,10 @@ def run_iter_job(prog, job):
     sit = iter_situations(ic); cov = {k: False for k in sit}
     starts = []
     for (s, c, err) in make_iter(ic, name):
-        if err: res['outcomes'][err] = res['outcomes'].get(err, 0) + 1; res['violations'].append(iter_viol(ic, name, s, None, ['C05.no_panic[%s]' % name])); continue
+        if err:
+            res['outcomes'][err] = res['outcomes'].get(err, 0) + 1
+            check_obligations(eng, list(s.pc), [('%s.completes_without_panic[%s]' % (p_, name), F_) for p_ in job['props']], prefixes, res, lambda m, failed, s=s: iter_viol(ic, name, s, m, failed, 0))
+            continue
         starts.append((s, c, []))
     limit = 2 * N + 2
     done = drive(eng, starts, meth, limit)
@@ -333,7 +336,7 @@ def run_iter_job(prog, job):
         key = 'finished' if fin is True else ('bound' if fin is False else fin)
         res['outcomes'][key] = res['outcomes'].get(key, 0) + 1
         if fin is not True and fin is not False:
-            ob = [('C05.no_panic[%s]' % name, F_)]
+            ob = [('%s.completes_without_panic[%s]' % (p_, name), F_) for p_ in job['props']]      # a panicking iterator yields no documented sequence
         elif name in EDGE:
             ob = edge_obligations(name, ic.pre, ic.x, [edge_terms(e) for e in seq], fin)
         else:
@@ -412,7 +415,7 @@ def run_pair_job(prog, job):
                 for o in eng.run(s4):
                     res['paths'] += 1; res['steps'] += o.state.steps
                     if o.kind != 'return':
-                        ob = [('C05.no_panic[%s]' % lab, F_)]
+                        ob = [('%s.completes_without_panic[%s]' % (p_, lab), F_) for p_ in job['props']]
                     else:
                         some, pay = opt_parts(o.value)
                         inside = 0 <= expect < len(F)
